@@ -92,7 +92,7 @@ func c18Definitions(c *c18Case) *c18Build {
 				loopMerge = g.Add(gen.Xor, p+"_xm", "")
 				link(loopMerge)
 			}
-			if c.Link == "start" || c.Link == "both" || c.Link == "start2" || c.Link == "loopstart" {
+			if c.Link == "start" || c.Link == "both" || c.Link == "start2" || c.Link == "loopstart" || c.Link == "chain" {
 				th := g.Add(gen.Throw, p+"_throwS", "")
 				th.Events = []gen.EventDef{{Type: "message", Ref: "msgS"}}
 				link(th)
@@ -223,6 +223,36 @@ func c18Definitions(c *c18Case) *c18Build {
 		flows = append(flows, `<bpmn:messageFlow id="MF_s" sourceRef="p0_throwS" targetRef="pw_start"/>`,
 			`<bpmn:messageFlow id="MF_s2" sourceRef="p0_throwS2" targetRef="pw2_start"/>`)
 	}
+	if c.Link == "chain" {
+		// a chain of message flows through two waiting processes: p0 instantiates pw, whose own throw event (behind
+		// a task) instantiates pw2; pw ends right after its throw, while pw2 still has a task to be answered
+		g := gen.NewGraph("pw")
+		s := g.Add(gen.Start, "pw_start", "")
+		s.Events = []gen.EventDef{{Type: "message", Ref: "msgS"}}
+		t := g.Add(gen.Task, "pw_t", "")
+		th := g.Add(gen.Throw, "pw_throwC", "")
+		th.Events = []gen.EventDef{{Type: "message", Ref: "msgC"}}
+		e := g.Add(gen.End, "pw_end", "")
+		g.Connect(s, t, nil)
+		g.Connect(t, th, nil)
+		g.Connect(th, e, nil)
+		b.graphs = append(b.graphs, g)
+		b.exec = append(b.exec, false)
+		b.behind["pw_t"] = append(b.behind["pw_t"], th.ID)
+		g2 := gen.NewGraph("pw2")
+		s2 := g2.Add(gen.Start, "pw2_start", "")
+		s2.Events = []gen.EventDef{{Type: "message", Ref: "msgC"}}
+		t2 := g2.Add(gen.Task, "pw2_t", "")
+		e2 := g2.Add(gen.End, "pw2_end", "")
+		g2.Connect(s2, t2, nil)
+		g2.Connect(t2, e2, nil)
+		b.graphs = append(b.graphs, g2)
+		b.exec = append(b.exec, false)
+		b.links["p0_throwS"] = append(b.links["p0_throwS"], c18Link{len(b.graphs) - 2, "pw_start", "start"})
+		b.links["pw_throwC"] = append(b.links["pw_throwC"], c18Link{len(b.graphs) - 1, "pw2_start", "start"})
+		flows = append(flows, `<bpmn:messageFlow id="MF_s" sourceRef="p0_throwS" targetRef="pw_start"/>`,
+			`<bpmn:messageFlow id="MF_c" sourceRef="pw_throwC" targetRef="pw2_start"/>`)
+	}
 	if c.Link == "start" || c.Link == "both" || c.Link == "loopstart" {
 		g := gen.NewGraph("pw")
 		s := g.Add(gen.Start, "pw_start", "")
@@ -256,7 +286,7 @@ func c18Cases(tier string, seed uint64) []fw.Case {
 	}
 	combos = append(combos, []string{"trivial", "trivial", "trivial"}, []string{"task", "trivial", "fork"}, []string{"fork", "task", "task"})
 	for ci, ex := range combos {
-		for _, link := range []string{"none", "start", "catch", "both", "start2", "waitcatch", "catch2", "loopstart", "fanin"} {
+		for _, link := range []string{"none", "start", "catch", "both", "start2", "waitcatch", "catch2", "loopstart", "fanin", "chain"} {
 			if link != "none" && ex[0] == "trivial" && len(ex) == 1 {
 				// fine: p0 gets the pre task anyway
 			}
